@@ -46,4 +46,11 @@ theorem ClifFns_armB (helpers : Nat → Bool) (p : Bytes) (pc : Nat) (i : Insn) 
 /-- `build_function_prelude`: the entry block's operations (stack addresses, ends of the two memory areas, R1, R2, the jump) are the source's -/
 theorem ClifFns_prelude : preludeSrcOk = true ∧ preludeSrcB = preludeB := ⟨by decide, rfl⟩
 
+/-- `build_cfg`: for every opcode byte, the source calls `prepare_jump_blocks` exactly where the model's `isJump` holds, and opens only the next instruction's block
+    exactly after `exit` and `tail_call` (`cfgStep`); `prepare_jump_blocks` and the head and tail of `translate_program`'s loop have the modelled shapes -/
+theorem ClifFns_cfg : (∀ o : Fin 256, (cfgJumpOpcodesSrc.contains o.val) = isJump o.val) ∧
+    (∀ o : Fin 256, (cfgNextOnlySrc.contains o.val) = (o.val = 0x95 || o.val = 0x8d)) ∧
+    prepareJumpBlocksShape = true ∧ translateHeadShape = true ∧ translateTailShape = true := by
+  decide +kernel
+
 end Rbpf
